@@ -8,7 +8,9 @@ from ..core import Case
 from ..ruleprops import violation
 
 RULE = ("seeded structured elections x rule configurations (rule, measure, tie rule, Profile/MultiProfile, resolute/irresolute, "
-        "initial allocation); non-trivial = at least 2 projects, at least one project selected, distinct by canonical case+cfg hash")
+        "initial allocation); plus a high-volume predicate-only stream of small elections with a binding budget (3-7 projects of varied "
+        "cost, budget between the dearest project and the total: several purchase rounds, every rule in turn); "
+        "non-trivial = at least 2 projects, at least one project selected, distinct by canonical case+cfg hash")
 ASSUMPTIONS = ["exact-arithmetic mode (FRACTION = gmpy2)", ">=1 voter, positive budget, non-negative exact costs, feasible initial allocation"]
 TRUSTED = ["ILP path: CBC solver answers re-validated exactly; solver faults discarded"]
 
@@ -68,6 +70,27 @@ def run(ctx):
     # corner stream: no project left to decide, all-zero costs, empty ballots
     ruleprops.run_items(ctx, corner_pairs(ctx, ctx.scale(120, 600)), predicate, nontrivial)
     wrapper_stream(ctx, ctx.scale(1500, 10000))
+    # binding-budget volume stream (predicate only, no model run): overshooting by a rule is a rare event on random
+    # elections (1 in 10^3), so it is looked for where it can show — many small multi-round elections with a tight budget
+    ruleprops.run_items(ctx, tight_pairs(ctx, ctx.scale(20000, 100000)), predicate, nontrivial, compare=False, keep=False)
+
+
+TIGHT_RULES = ("mes", "maxw", "mes", "greedy", "phragmen")  # Equal Shares is the slowest to show an overshoot: double share
+
+
+def tight_pairs(ctx, n):
+    rng = ctx.rng
+    for k in range(n):
+        case = core.gen_tight_election(rng, btypes=("app", "app", "app", "app", "card", "cum", "ord"), m=(3, 7), n=(2, 7))
+        rule = TIGHT_RULES[k % len(TIGHT_RULES)]
+        if rule == "phragmen" and case.btype != "app":
+            rule = "mes"
+        cfg = rulegen.gen_rule_cfg(rng, case, rules=(rule,), allow_refuse=False)
+        if rule != "maxw":
+            # an irresolute call returns every tied outcome: many more allocations checked per call
+            cfg["res"] = not (len(case.projects) <= 6 and rng.random() < 0.5)
+        ctx.count("stream", "tight-budget:" + rule)
+        yield case, cfg
 
 
 def wrapper_stream(ctx, n):
@@ -129,6 +152,7 @@ def corner_pairs(ctx, n):
 def search(ctx, disagreements):
     ctx.rule = RULE
     ruleprops.run_items(ctx, pairs(ctx, 6000), predicate, nontrivial, compare=False)
+    ruleprops.run_items(ctx, tight_pairs(ctx, 40000), predicate, nontrivial, compare=False, keep=False)
 
 
 def replay(payload):
